@@ -51,7 +51,22 @@ def run(tier):
         if rng.random() < 0.3: src2 = "// café €\n" + src2
         if rng.random() < 0.2: src2 = GM.crlf(src2)
         known.append(("k%d" % i, "known-ident", src2))
-    allc = cases + known
+    # constructs whose diagnostics combine several token locations, broken over lines at every token gap
+    probes = ["var b: bool = cast a as u32;", 'var y: i32 = "abc" "def" "ghi";', "var z: i32 = a + true;", "var w: i32 = a as bool;",
+              "var c: i32 = f ( 1 , 2 , 3 );", "var q: [2]i32 = [ 1 , 2 , 3 ];", "a = - true;", "var e: i32 = ( a ) & ( true );", "var m = S { v: true , w: 1 };",
+              "if a == true { a = 1; }", "var p: &i32 = & & a;", "var l: usize = | a |;", "var s: i32 = a << 1u8;"]
+    multi = []
+    for pi, st in enumerate(probes):
+        toks = st.split(" ")
+        gaps = list(range(1, len(toks)))
+        combos = [(g,) for g in gaps] + [(g, h) for g in gaps for h in gaps if g < h][: (10 if tier == "quick" else 200)]
+        for ci, combo in enumerate(combos):
+            body = ""
+            for ti, t in enumerate(toks):
+                body += ("\n\t\t" if ti in combo else (" " if ti else "")) + t
+            src = "struct S\n{\n\tv: i32,\n\tw: i32,\n}\nfn f(x: i32) -> i32\n{\n\treturn: x\n}\nfn main()\n{\n\tvar a: i32 = 1;\n\t%s\n}\n" % body
+            multi.append(("p%d.%d" % (pi, ci), "multi-line-construct", src))
+    allc = cases + known + multi
     impl = C.run_harness("diag", [(c[0], c[2]) for c in allc], ck.work + "/diag", timeout=1800)
     stats = collections.Counter(); codes_seen = collections.Counter(); bad = 0
     for cid, kind, src in allc:
